@@ -40,7 +40,13 @@ VARIANTS = ["rel", "tsan"]
 # known_findings.json (the integrator decides)
 DTREE_FP = "fit-dtree-tie"
 TABLE_FP = "fit-table-tie"
+FLIP_FP = "fit-gboost-flip"
 CANDIDATES = {
+    FLIP_FP: ("gboost (no trees, at most one table learner in the pool) fits a different model with a dataset pool of several "
+              "workers than with one, and from run to run: the greedy discrete choices of boosting amplify the ulp-level "
+              "re-association noise of the per-thread accumulators (observed with stumps on a uniform subsample: 14 / 16 / 17 weak "
+              "learners, predictions 30 % apart); bit-identical with a dataset pool of one worker and no ThreadSanitizer report in "
+              "the very runs that differ: not a data race, but `predictions within 1e-5 whatever the number of threads` fails"),
     TABLE_FP: ("gboost with two look-up-table weak learners in its pool (kbest / ksplit / dense / dstep) fits a different model "
                "depending on the number of dataset-pool workers and even from run to run with the same number: on a categorical "
                "feature the prototypes fit the same table with mathematically equal scores, the ulp-level re-association noise of "
@@ -286,8 +292,10 @@ def run(tier, replay=None):
         "within 1e-5 relative (floating point; the model statement is exact arithmetic: C18_reduction_order, C18_fit_select_schedule_independent)",
         "weak-learner selection with exactly tied scores is schedule dependent (C18_fit_select_tie_refuted): searched with the tieprobe "
         "scenario on request, and visible as candidate finding `fit-dtree-tie`"]
-    cov["excluded_inputs"] = ["gboost fits whose weak-learner pool contains dtree: differences are recorded as candidate finding "
-                              "`fit-dtree-tie` (exact score ties in small tree nodes), not as violations; TSan and all other oracles still apply",
+    cov["excluded_inputs"] = ["gboost fits with a dataset pool of several workers: differences to the one-worker fit are recorded as candidate "
+                              "findings (`fit-dtree-tie`, `fit-table-tie`, `fit-gboost-flip`: discrete choices amplifying re-association noise), "
+                              "not as violations; a different exception still fails, and the same fits with a dataset pool of ONE worker and fold/trial "
+                              "tasks on 2/4/16 workers must be bit-identical; linear models stay strict (1e-5); TSan and all other oracles apply to all of them",
                               "non-const use (dataset_t::drop/undrop are const but mutate the generators: not part of the const interface of the property)"]
     r.assumptions = ["the abstract footprints of C18_Defs describe the C++ accesses (validated by TSan + differential runs on sampled schedules, not proved)",
                      "ThreadSanitizer's happens-before analysis is sound for the synchronisation used (std::mutex, condition_variable, futures, atomics)",
